@@ -510,7 +510,9 @@ func (n *Node) serve(c *Conn) {
 		args, okArgs := resp.Args(v)
 		var rep Reply
 		if !okArgs {
-			rep = Reply{Raw: resp.Encode(resp.E("ERR Protocol error: expected array of bulk strings"))}
+			// like Redis: a request that is not an array of (non-null) bulk strings is a protocol error, answered and followed
+			// by the close of the connection
+			rep = Reply{Raw: resp.Encode(resp.E("ERR Protocol error: invalid bulk length")), Close: true}
 		} else {
 			if n.Before != nil {
 				n.Before(args) // may block (no lock is held): the request is taken but not yet looked at
